@@ -58,7 +58,7 @@ def shards(tier):
 
 def floors(tier):
     scale = 1 if tier == 'quick' else 20
-    return {'evaluations': 300 * scale, 'backend_runs_synchronous': 100 * scale, 'backend_runs_threads': 100 * scale,
+    return {'evaluations': 600 * scale, 'tables': 300 * scale, 'backend_runs_synchronous': 100 * scale, 'backend_runs_threads': 100 * scale,
             'backend_runs_pyfunc': 60 * scale, 'backend_runs_processes': 6 * scale, 'train_mode_cases': 20 * scale,
             'registry_states_compared': 20 * scale, 'shared_source_cases': 10}
 
@@ -239,7 +239,7 @@ def check_case(ctx, spec, backends, workroot):
     from vlib import graphgen
     from forml.flow._graph import port
 
-    ctx.count('evaluations')
+    ctx.count('tables')
     feats = features(spec)
     if feats['source_fanout'] > 1:
         ctx.count('shared_source_cases')
@@ -247,7 +247,7 @@ def check_case(ctx, spec, backends, workroot):
         ctx.count('port_shared_by_3plus')
     if feats['train'] and feats['assets']:
         ctx.count('train_mode_cases')
-    case = os.path.join(workroot, f'case{ctx.counters["evaluations"]}')
+    case = os.path.join(workroot, f'case{ctx.counters["tables"]}')
     reference = execute_guarded(spec, 'interp', os.path.join(case, 'interp'))
     if reference is None or reference['error']:
         ctx.count('reference_failed')  # C01's business
@@ -264,6 +264,7 @@ def check_case(ctx, spec, backends, workroot):
     del built, expected
     for backend in backends:
         ctx.count(f'backend_runs_{backend}')
+        ctx.count('evaluations')  # one evaluation = one table executed on one backend
         if graphgen.nontrivial(spec):
             ctx.shape((graphgen.signature(spec), backend))
         observed = execute_guarded(spec, backend, os.path.join(case, backend))
@@ -276,7 +277,7 @@ def check_case(ctx, spec, backends, workroot):
                 ctx.inconclusive(f'{backend} timed out once but finished alone ({verdict})')
             raise StopShard()
         compare(ctx, spec, backend, reference, observed, leafdgs)
-    if ctx.counters['evaluations'] % 60 == 1:
+    if ctx.counters['tables'] % 60 == 1:
         ctx.sample({'spec': spec, 'backends': backends, 'reference_values': len(reference['log'])})
     shutil.rmtree(case, ignore_errors=True)
 
